@@ -56,6 +56,13 @@ Inductive target :=
 (* `name in self.cls_attrs` -- exact (case-sensitive) membership; Gen/Params lists the attribute
    names upper-cased and the harness checks that every cls_attrs entry is lower-case in the code *)
 Definition attr_guard (attrs : list str) (name : str) : bool := smem name (map lower attrs).
+(* the lists are constants of the run: lower-case them once *)
+Definition lower_attrs_Segment : list str := Eval vm_compute in map lower cls_attrs_Segment.
+Definition lower_attrs_Field : list str := Eval vm_compute in map lower cls_attrs_Field.
+Definition lower_attrs_Component : list str := Eval vm_compute in map lower cls_attrs_Component.
+Definition guard_Segment (name : str) : bool := smem name lower_attrs_Segment.
+Definition guard_Field (name : str) : bool := smem name lower_attrs_Field.
+Definition guard_Component (name : str) : bool := smem name lower_attrs_Component.
 
 Section Resolve.
 Variable t : tables.
@@ -146,11 +153,11 @@ Definition default_child_lookup (fcr : str -> result sentry) (present : list str
 (* ---------- attribute syntax on a Segment / Component (Element.__getattr__, __setattr__, __delattr__:
    the same resolution for reads, writes and deletes) ---------- *)
 Definition seg_getattr (s : seg) (name : str) : result target :=
-  if attr_guard cls_attrs_Segment name then Ok TAttr
+  if guard_Segment name then Ok TAttr
   else do e <- seg_find_child_reference s (upper name); Ok (TChild e).
 
 Definition comp_getattr (c : comp) (name : str) : result target :=
-  if attr_guard cls_attrs_Component name then Ok TAttr
+  if guard_Component name then Ok TAttr
   else do e <- comp_find_child_reference c (upper name); Ok (TChild e).
 
 (* ---------- Field._get_traversal_children ---------- *)
@@ -193,7 +200,7 @@ Fixpoint field_traverse (fuel : nat) (f : field) (name : str) : result target :=
   match fuel with
   | O => Err OutOfFuel
   | S fuel' =>
-      if attr_guard cls_attrs_Field name then Ok TAttr else
+      if guard_Field name then Ok TAttr else
       match field_find_child_reference f (upper name) with
       | Ok e => Ok (TChild e)
       | Err (HL7 EChildNotFound) =>
@@ -268,40 +275,37 @@ Fixpoint alt_case (up : bool) (s : str) : str :=
   end.
 Definition case_variants (s : str) : list str := [s; upper s; lower s; alt_case false s; alt_case true s].
 
-(* ---------- the finite per-version obligations (Oblig/C14_v2_X.v evaluate these by vm_compute) ---------- *)
+(* ---------- the finite per-version obligations (Oblig/C14_v2_X.v evaluate these by vm_compute).
+   Letter case is not enumerated here: C14_case shows that resolution depends on the spelling only
+   through `upper`, so each spelling is evaluated once and must not be an attribute name. ---------- *)
 Section Oblig.
 Variable t : tables.
+Variable lvl : level.
 
-(* the rows of a sequence reference, when every row is well formed *)
-Definition rows_of (r : sref) : option (list vchild) :=
-  match view_of t r with
-  | VSeq _ cs _ =>
-      if forallb (fun o => match o with Some _ => true | None => false end) cs
-      then Some (flat_map (fun o => match o with Some v => [v] | None => [] end) cs)
-      else None
-  | _ => None
+(* the child entries of a structure, in table order *)
+Definition entries (st : structure) : list sentry := map snd (st_by_name st).
+Definition long_of (e : sentry) : option str :=
+  match ref_long (se_ref e) with Some (Some l) => Some l | _ => None end.
+
+(* spelling n reaches the child entry whose key is `key` *)
+Definition reaches (get : str -> result target) (key : str) (n : str) : bool :=
+  match get n with
+  | Ok (TChild e) => streqb (se_name e) key
+  | _ => false
   end.
 
-Definition long_of (vc : vchild) : option str :=
-  match ref_long (vc_ref vc) with Some (Some l) => Some l | _ => None end.
-
-(* every letter-case variant of spelling n reaches the child entry whose key is `key` *)
-Definition reaches (get : str -> result target) (key : str) (n : str) : bool :=
-  forallb (fun n' => match get n' with
-                     | Ok (TChild e) => streqb (se_name e) key
-                     | _ => false
-                     end) (case_variants n).
-
-(* classification of one row's long name *)
+(* classification of one row's long name: absent / shared with another row of the parent / equal to
+   a child name of the parent / an attribute name of the parent's class / eligible *)
 Inductive long_class := LNone | LDup | LShadow | LReserved | LOk (l : str).
-Definition classify_long (reserved : list str) (vcs : list vchild) (vc : vchild) : long_class :=
-  match long_of vc with
+Definition classify_long (reserved : list str) (es : list sentry) (e : sentry) : long_class :=
+  match long_of e with
   | None => LNone
   | Some l =>
-      if Nat.ltb 1 (length (filter (fun v => match long_of v with Some l' => streqb l' l | None => false end) vcs))
+      let ul := upper l in
+      if Nat.ltb 1 (length (filter (fun v => match long_of v with Some l' => streqb l' l | None => false end) es))
       then LDup
-      else if existsb (fun v => streqb (upper (vc_name v)) (upper l)) vcs then LShadow
-      else if smem (upper l) reserved then LReserved
+      else if existsb (fun v => streqb (se_name v) ul) es then LShadow
+      else if smem ul reserved then LReserved
       else LOk l
   end.
 
@@ -312,18 +316,26 @@ Definition tally0 := mk_tally 0 0 0 0 0 0.
 Definition tally_add (a b : tally) : tally :=
   mk_tally (k_rows a + k_rows b) (k_long a + k_long b) (k_dup a + k_dup b) (k_shadow a + k_shadow b)
            (k_reserved a + k_reserved b) (k_nolong a + k_nolong b).
+(* digest of the alias map: which long name belongs to which child name *)
+Definition wsum (s : str) : N :=
+  fst (fold_left (fun (a : N * N) b => let '(acc, i) := a in ((acc + i * code b)%N, (i + 1)%N)) s (0%N, 1%N)).
+Definition alias_pair (name : str) (long : option str) : N :=
+  (wsum name * match long with Some x => wsum x | None => 3 end)%N.
+Definition entries_digest (es : list sentry) : N :=
+  fold_left (fun acc e => (acc + alias_pair (se_name e) (long_of e))%N) es 0%N.
 Definition tally_list (x : tally) : list N := [k_rows x; k_long x; k_dup x; k_shadow x; k_reserved x; k_nolong x].
+Definition tally_sum (l : list tally) : tally := fold_right tally_add tally0 l.
 
-(* all rows of one parent: (failing spellings, tally).  The HL7 name must reach its own row in every
-   letter case and must not be an attribute name; the long name likewise unless exempt. *)
-Definition check_rows (label : str) (get : str -> result target) (reserved : list str) (vcs : list vchild)
+(* all rows of one parent: (failing spellings, tally).  The HL7 name must reach its own row and must
+   not be an attribute name; the long name likewise unless the row is exempt. *)
+Definition check_rows (label : str) (get : str -> result target) (reserved : list str) (es : list sentry)
   : list str * tally :=
   fold_right
-    (fun vc acc =>
+    (fun e acc =>
        let '(bad, k) := acc in
-       let key := vc_name vc in
-       let bad1 := if reaches get key key && negb (smem (upper key) reserved) then [] else [label ++ "/" ++ key] in
-       match classify_long reserved vcs vc with
+       let key := se_name e in
+       let bad1 := if reaches get key key && negb (smem key reserved) then [] else [label ++ "/" ++ key] in
+       match classify_long reserved es e with
        | LNone => (bad1 ++ bad, tally_add (mk_tally 1 0 0 0 0 1) k)
        | LDup => (bad1 ++ bad, tally_add (mk_tally 1 0 1 0 0 0) k)
        | LShadow => (bad1 ++ bad, tally_add (mk_tally 1 0 0 1 0 0) k)
@@ -331,106 +343,54 @@ Definition check_rows (label : str) (get : str -> result target) (reserved : lis
        | LOk l => (bad1 ++ (if reaches get key l then [] else [label ++ "/" ++ key ++ "/" ++ l]) ++ bad,
                    tally_add (mk_tally 1 1 0 0 0 0) k)
        end)
-    ([], tally0) vcs.
+    ([], tally0) es.
 
-Definition names_distinct (vcs : list vchild) : bool := nodupb streqb (map vc_name vcs).
+(* keys are the entries' own names, pairwise distinct *)
+Definition keys_ok (st : structure) : bool :=
+  forallb (fun p => streqb (fst p) (se_name (snd p))) (st_by_name st)
+  && nodupb streqb (map fst (st_by_name st)).
 
-(* ---- segments and their field rows ---- *)
-Definition check_segment (p : str * sref) : list str * tally :=
-  match parent_segment t (fst p), rows_of (snd p) with
-  | Ok s, Some vcs =>
-      if names_distinct vcs && negb (bmem US (fst p))
-      then check_rows (fst p) (seg_getattr t s) reserved_Segment vcs
-      else ([fst p ++ "/names"], tally0)
-  | _, _ => ([fst p], tally0)
+(* ---- a segment and its field rows ---- *)
+Definition check_segment (p : str * sref) : list str * tally * N :=
+  match parent_segment t (fst p) with
+  | Ok s =>
+      if has_map_st (s_st s) && keys_ok (s_st s) && negb (bmem US (fst p)) && streqb (upper (fst p)) (fst p)
+      then (check_rows (fst p) (seg_getattr t s) reserved_Segment (entries (s_st s)),
+            entries_digest (entries (s_st s)))
+      else ([fst p ++ "/shape"], tally0, 0%N)
+  | Err _ => ([fst p], tally0, 0%N)
   end.
 
-(* ---- one component parent: its subcomponent rows by name / long name ---- *)
-Definition check_component (label : str) (c : comp) : list str * tally :=
-  match c_st c with
-  | Some st =>
-      match rows_of (st_reference st) with
-      | Some vcs => if names_distinct vcs
-                    then check_rows label (comp_getattr t c) reserved_Component vcs
-                    else ([label ++ "/names"], tally0)
-      | None => ([], tally0)          (* leaf component: no children to address *)
-      end
-  | None => ([label], tally0)
-  end.
-
-(* expected outcome of positional paths *)
-Definition path_variants (p : str) : list str := [p; lower p].
-Definition reaches_pos (f : field) (lvl : level) (key : str) (p : str) : bool :=
-  forallb (fun n => match field_getattr t lvl f n with
-                    | Ok (TChild e) => streqb (se_name e) key
-                    | _ => false end) (path_variants p).
-Definition reaches_sub (f : field) (lvl : level) (ckey skey : str) (p : str) : bool :=
-  forallb (fun n => match field_getattr t lvl f n with
-                    | Ok (TGrand c s) => streqb (se_name c) ckey && streqb (se_name s) skey
-                    | _ => false end) (path_variants p).
-Definition misses (f : field) (lvl : level) (p : str) : bool :=
-  forallb (fun n => match field_getattr t lvl f n with
-                    | Err (HL7 EChildNotFound) | Err (HL7 EChildNotValid) => true
-                    | _ => false end) (path_variants p).
-
-(* positional counts: component paths, subcomponent paths, paths that must miss *)
-Record ptally := mk_ptally { p_comp : N; p_sub : N; p_miss : N }.
-Definition ptally_add (a b : ptally) := mk_ptally (p_comp a + p_comp b) (p_sub a + p_sub b) (p_miss a + p_miss b).
-
-(* ---- one field parent (named `fname`, reference r): component rows by name / long name /
-   <fname>_<j>; subcomponents <fname>_<j>_<k>; the first index beyond each list misses ---- *)
-Definition check_field (lvl : level) (fname : str) (r : sref)
-  : list str * (tally * tally * ptally) :=
+(* ---- a field parent (named fname, reference r) and its component rows; a leaf field has none ---- *)
+Definition check_field (fname : str) (r : sref) : list str * tally :=
   match mk_field t lvl (Some fname) None (Some r) with
-  | Err _ => ([fname], (tally0, tally0, mk_ptally 0 0 0))
+  | Err _ => ([fname], tally0)
   | Ok f =>
-      match rows_of r with
-      | None =>
-          (* leaf field: base datatype -> only <fname>_1 (the component named like the datatype);
-             varies -> <fname>_<j> is VARIES_<j> *)
-          let ok :=
-            match f_dt f with
-            | Some d =>
-                if base t (f_dt f)
-                then reaches_pos f lvl d (name_idx fname 1) && reaches (field_getattr t lvl f) d d
-                     && misses f lvl (name_idx fname 2) && misses f lvl (name_idx (name_idx fname 1) 1)
-                else if is_varies (f_dt f)
-                then reaches_pos f lvl (unbs "VARIES_1") (name_idx fname 1)
-                     && reaches_pos f lvl (unbs "VARIES_7") (name_idx fname 7)
-                else false
-            | None => false
-            end in
-          (if ok then [] else [fname ++ "/leaf"], (tally0, tally0, mk_ptally 1 0 2))
-      | Some vcs =>
-          if negb (names_distinct vcs) then ([fname ++ "/names"], (tally0, tally0, mk_ptally 0 0 0)) else
-          let '(bad, k) := check_rows fname (field_getattr t lvl f) reserved_Field vcs in
-          let n := length vcs in
-          let per :=
-            map (fun jv =>
-                   let '(j, vc) := jv in
-                   let p := name_idx fname j in
-                   let bad_p := if reaches_pos f lvl (vc_name vc) p then [] else [p] in
-                   match component_of_entry t lvl (mk_sentry (vc_name vc) (vc_ref vc) (vc_kind vc)) with
-                   | Err _ => (p :: bad_p, tally0, mk_ptally 1 0 0)
-                   | Ok c =>
-                       let '(bad_c, kc) := check_component (fname ++ "/" ++ vc_name vc) c in
-                       let subs := match c_st c with
-                                   | Some st => match rows_of (st_reference st) with Some l => l | None => [] end
-                                   | None => [] end in
-                       let bad_s :=
-                         flat_map (fun kv => let '(k', sv) := kv in
-                                             if reaches_sub f lvl (vc_name vc) (vc_name sv) (name_idx p k')
-                                             then [] else [name_idx p k'])
-                                  (indexed subs) in
-                       let bad_m := if misses f lvl (name_idx p (S (length subs))) then [] else [name_idx p (S (length subs))] in
-                       (bad_p ++ bad_c ++ bad_s ++ bad_m, kc,
-                        mk_ptally 1 (N.of_nat (length subs)) 1)
-                   end) (indexed vcs) in
-          let bad_m := if misses f lvl (name_idx fname (S n)) && misses f lvl (name_idx fname 0)
-                       then [] else [name_idx fname (S n)] in
-          (bad ++ flat_map (fun x => fst (fst x)) per ++ bad_m,
-           (k, fold_right (fun x a => tally_add (snd (fst x)) a) tally0 per,
-            fold_right (fun x a => ptally_add (snd x) a) (mk_ptally 0 0 2) per))
+      match f_st f with
+      | Some st =>
+          if has_map_st st then
+            if keys_ok st && negb (base t (f_dt f)) && negb (is_varies (f_dt f))
+            then check_rows fname (field_getattr t lvl f) reserved_Field (entries st)
+            else ([fname ++ "/shape"], tally0)
+          else if base t (f_dt f) || is_varies (f_dt f) || opt_is_none (f_dt f) then ([], tally0)
+          else ([fname ++ "/leaf"], tally0)
+      | None => ([fname], tally0)
+      end
+  end.
+
+(* ---- a component parent (a component row of a datatype) and its subcomponent rows ---- *)
+Definition check_component (cname : str) (r : sref) : list str * tally :=
+  match component_of_entry t lvl (mk_sentry cname r CMP) with
+  | Err _ => ([cname], tally0)
+  | Ok c =>
+      match c_st c with
+      | Some st =>
+          if has_map_st st then
+            if keys_ok st
+            then check_rows cname (comp_getattr t c) reserved_Component (entries st)
+            else ([cname ++ "/shape"], tally0)
+          else ([], tally0)
+      | None => ([cname], tally0)
       end
   end.
 
@@ -444,43 +404,68 @@ Definition inline_rows (r : sref) : list (str * sref) :=
   end.
 Definition field_parents : list (str * sref) :=
   t_fields t ++ flat_map (fun p => inline_rows (snd p)) (t_segments t).
+(* the component parents: every DATATYPES entry (the reference a struct row stands for) *)
+Definition component_parents : list (str * sref) := t_components t.
 
-(* order- and position-sensitive digest of the alias maps (child position -> long name), so that
-   a change of which long name belongs to which child is noticed *)
-Definition str_hash (s : str) : N := fold_left (fun acc b => ((acc * 131 + code b) mod 1000000007)%N) s 7%N.
-Definition rows_digest (pname : str) (longs : list (option str)) : N :=
-  fst (fold_left (fun (a : N * N) l =>
-                    let '(acc, i) := a in
-                    (((acc + (i + str_hash pname) * match l with Some x => str_hash x | None => 3 end) mod 1000000007)%N,
-                     (i + 1)%N)) longs (0%N, 1%N)).
-Definition alias_digest : N :=
-  let seg := fold_left (fun acc p => match rows_of (snd p) with
-                                    | Some vcs => ((acc * 3 + rows_digest (fst p) (map long_of vcs)) mod 1000000007)%N
-                                    | None => acc end) (t_segments t) 0%N in
-  fold_left (fun acc p => ((acc * 3 + rows_digest (fst p)
-                               (map (fun x => match row_view t x with Some vc => long_of vc | None => None end) (snd p)))
-                            mod 1000000007)%N) (t_structs t) seg.
+(* ---- positional hygiene: no child name, long name or DATATYPES key has the shape of a positional
+   path <field>_<j> or <field>_<j>_<k> of a field parent, and no datatype is named like a field ---- *)
+Definition path_shaped (fields : list str) (x : str) : bool :=
+  match bsplit US (upper x) with
+  | [a; b; c] => opt_is_some (py_int c) && smem (a ++ "_" ++ b) fields
+  | [a; b; c; d] => opt_is_some (py_int c) && opt_is_some (py_int d) && smem (a ++ "_" ++ b) fields
+  | _ => false
+  end.
+Definition all_longs : list str :=
+  flat_map (fun p => match long_of (mk_sentry [] (snd p) CMP) with Some l => [l] | None => [] end) (t_components t).
+Definition paths_clean : bool :=
+  let fields := map fst field_parents in
+  forallb (fun k => negb (path_shaped fields k)) (map fst (t_components t))
+  && forallb (fun l => negb (path_shaped fields l)) all_longs
+  && forallb (fun d => negb (smem (fst d) fields)) (t_structs t).
+
+(* digest over the field rows of every segment (as the segment sees them) and every DATATYPES entry *)
+Definition seg_digest (p : str * sref) : N :=
+  match parent_segment t (fst p) with
+  | Ok s => entries_digest (entries (s_st s))
+  | Err _ => 0%N
+  end.
+Definition components_digest : N :=
+  fold_left (fun acc p => (acc + alias_pair (fst p) (long_of (mk_sentry [] (snd p) CMP)))%N) (t_components t) 0%N.
 
 Record c14_report := mk_report {
   r_bad_segments : list str;        (* failing segment-level spellings *)
-  r_bad_fields : list str;          (* failing field / component level spellings and paths *)
-  r_seg : list N;                   (* tally of the segment rows *)
-  r_field : list N;                 (* tally of the component rows under field parents *)
-  r_comp : list N;                  (* tally of the subcomponent rows under component parents *)
-  r_pos : list N;                   (* positional: component paths, subcomponent paths, must-miss paths *)
+  r_bad_fields : list str;          (* failing spellings under field parents *)
+  r_bad_components : list str;      (* failing spellings under component parents *)
+  r_seg : list N;                   (* tally of the field rows of all segments *)
+  r_field : list N;                 (* tally of the component rows of all field parents *)
+  r_comp : list N;                  (* tally of the subcomponent rows of all component parents *)
+  r_parents : list N;               (* segments, field parents, component parents *)
+  r_paths_clean : bool;
   r_digest : N
 }.
 
-Definition report (lvl : level) : c14_report :=
+Definition report : c14_report :=
   let segs := map check_segment (t_segments t) in
-  let flds := map (fun p => check_field lvl (fst p) (snd p)) field_parents in
-  let kf := fold_right (fun x a => let '(k1, k2, kp) := snd x in
-                                   let '(a1, a2, ap) := a in (tally_add k1 a1, tally_add k2 a2, ptally_add kp ap))
-                       (tally0, tally0, mk_ptally 0 0 0) flds in
-  let '(k1, k2, kp) := kf in
-  mk_report (flat_map fst segs) (flat_map fst flds)
-            (tally_list (fold_right (fun x a => tally_add (snd x) a) tally0 segs))
-            (tally_list k1) (tally_list k2) [p_comp kp; p_sub kp; p_miss kp] alias_digest.
+  let flds := map (fun p => check_field (fst p) (snd p)) field_parents in
+  let cmps := map (fun p => check_component (fst p) (snd p)) component_parents in
+  mk_report (flat_map (fun x => fst (fst x)) segs) (flat_map fst flds) (flat_map fst cmps)
+            (tally_list (tally_sum (map (fun x => snd (fst x)) segs)))
+            (tally_list (tally_sum (map snd flds)))
+            (tally_list (tally_sum (map snd cmps)))
+            [N.of_nat (length segs); N.of_nat (length flds); N.of_nat (length cmps)]
+            paths_clean
+            ((fold_left (fun acc x => (acc + snd x)%N) segs 0%N + components_digest) mod 1000000007)%N.
+
+(* the part of the report that must hold of any version; the counts are pinned per version *)
+Definition only_wildcard (l : list str) : bool :=
+  match l with [] => true | [x] => streqb x "ANYHL7SEGMENT" | _ => false end.
+Definition report_fine (r : c14_report) : bool :=
+  only_wildcard (r_bad_segments r)
+  && match r_bad_fields r, r_bad_components r with [], [] => true | _, _ => false end
+  && r_paths_clean r.
+(* exempt rows = rows whose long name is not claimed to address them (shared / shadowed / reserved) *)
+Definition exempt_of (l : list N) : N := (nth 2 l 0 + nth 3 l 0 + nth 4 l 0)%N.
+Definition exempt_rows (r : c14_report) : N * N * N := (exempt_of (r_seg r), exempt_of (r_field r), exempt_of (r_comp r)).
 
 End Oblig.
 
